@@ -18,7 +18,7 @@ CFG = {
                  "tiers (oracle: value or error, never a panic, strings valid UTF-8, every registered name resolves; arithmetic built-ins "
                  "re-run under a debug-profile build and compared). Model side: outcome class and value; quick = stratified sample "
                  "(first cell of every (built-in, receiver kind, outcome) and (built-in, kwarg kinds, outcome) stratum, filled uniformly to 4000), "
-                 "thorough = every modelled cell. distinct = distinct Gallina case terms; non-trivial = not (no kwargs and receiver rejected as the wrong kind). "
+                 "thorough = every stratum plus a uniform draw of the other modelled cells, about 60 000 cells (C17_MODEL_CAP=0: every modelled cell, about 170 000). distinct = distinct Gallina case terms; non-trivial = not (no kwargs and receiver rejected as the wrong kind). "
                  "Implementation-side law oracles on every cell: range = exactly the progression or a justified failure (known class "
                  "range:span-overflow-refused), round never turns a finite number into NaN/inf (known class round:non-finite-result). "
                  "Cells of sort/unique/group_by (laws owned by C16) and cells whose value needs a std oracle the model does not carry "
